@@ -1221,7 +1221,7 @@ func main() {
 				sz = 8 // plenty of tiny trees
 			}
 			c := genCase(root.Fork(uint64(i)), len(cases), pf, sz)
-			if (*prof == "C09" || *prof == "C11") && i%50 == 13 && i < 700 {
+			if (*prof == "C09" || *prof == "C11") && i%100 == 13 && i < 1400 {
 				// a history across the 1000-header file boundary with the whole first file in
 				// pruned history (observations only after loads / cleans and at the end)
 				var ops []Op
@@ -1330,11 +1330,14 @@ func main() {
 		stats[fmt.Sprintf("hdrs_%03d-%03d", len(cases[i].Hdrs)/20*20, len(cases[i].Hdrs)/20*20+19)]++
 	}
 
-	var normal, fix []int
+	var normal, fix, long []int
 	for i := range cases {
-		if cases[i].Fix {
+		switch {
+		case cases[i].Fix:
 			fix = append(fix, i)
-		} else {
+		case len(cases[i].Hdrs) > 300:
+			long = append(long, i) // a shard of its own each: they cost half a minute to evaluate
+		default:
 			normal = append(normal, i)
 		}
 	}
@@ -1377,6 +1380,18 @@ func main() {
 			imports, ty, fn = "From BR Require Import Base.Prelude Headers.Tree Headers.Crash.", "ccase", "cmismatches"
 		}
 		if err := coqfmt.WriteCases(path, imports, ty, fn, part); err != nil {
+			fmt.Fprintln(os.Stderr, err)
+			os.Exit(2)
+		}
+	}
+	for _, i := range long {
+		imports, ty, fn := "From BR Require Import Base.Prelude Headers.Tree.", "tcase", "mismatches"
+		if *prof == "C12" {
+			imports, ty, fn = "From BR Require Import Base.Prelude Headers.Tree Headers.Crash.", "ccase", "cmismatches"
+		}
+		path := filepath.Join(*out, fmt.Sprintf("cases_%d.v", len(index)))
+		index = append(index, []int{cases[i].ID})
+		if err := coqfmt.WriteCases(path, imports, ty, fn, []string{coq[i]}); err != nil {
 			fmt.Fprintln(os.Stderr, err)
 			os.Exit(2)
 		}
